@@ -231,6 +231,7 @@ impl<T: Types> RaftLog<T> {
         let mut closed = BTreeMap::new();
         let mut prev_end_offset = None;
         let mut last_log_id = None;
+        let mut recreate_last_chunk = false;
 
         for chunk_id in chunk_ids.iter().copied() {
             // Only the last chunk(open chunk) needs to keep all log payload in
@@ -251,6 +252,9 @@ impl<T: Types> RaftLog<T> {
                 drop(chunk);
                 std::fs::remove_file(config.chunk_path(chunk_id))?;
                 prev_end_offset = Some(chunk_id.offset());
+                // The preceding chunk stays closed (its payloads are already
+                // marked evictable above): the removed chunk is re-created.
+                recreate_last_chunk = true;
                 break;
             }
 
@@ -270,7 +274,11 @@ impl<T: Types> RaftLog<T> {
             );
         }
 
-        let open = Self::reopen_last_closed(&mut closed);
+        let open = if recreate_last_chunk {
+            None
+        } else {
+            Self::reopen_last_closed(&mut closed)
+        };
 
         let open = if let Some(open) = open {
             open
